@@ -193,7 +193,9 @@ DegTags == IntTags \cup {"f32", "fx"}
 DegOf(tag, v) ==
    IF tag = "fx" THEN (IF (v %% OneFx) = Z0 THEN v // OneFx ELSE ZN(100000))
    ELSE v                                                                      \* integral tags (f32 handled in FxFloat)
+AllOps == {"sin_angle_all", "cos_angle_all", "tan_angle_all"}
 Rel_C20(e) ==
+   \/ e.op \in AllOps /\ AbsLe(e.a[1], ZN(360))
    \/ e.op = "a2r"
    \/ e.op \in {"sin_angle", "cos_angle", "tan_angle"} /\ e.t[1] \in (IntTags \cup {"fx"}) /\ AbsLe(DegOf(e.t[1], e.a[1]), ZN(360))
 Ok_C20(e) ==
@@ -201,6 +203,8 @@ Ok_C20(e) ==
            IF (Z0 \preceq e.a[1]) /\ (e.a[1] \preceq ZN(360))
            THEN ~IsNaN(e.o) /\ IvDist(RR(e.o), DegIv(e.a[1])) \preceq U(2, 1)
            ELSE IsNaN(e.o)
+     (* integer, float and fixed_t arguments carrying the same d give the same result (e.o: through int32_t, e.alts: every other type) *)
+     [] e.op \in AllOps /\ Rel_C20(e) -> \A i \in DOMAIN e.alts : e.alts[i] = e.o
      [] e.op = "sin_angle" /\ Rel_C20(e) -> SinBoundOk(DegIv(DegOf(e.t[1], e.a[1])), e.o, 3)
      [] e.op = "cos_angle" /\ Rel_C20(e) -> SinBoundOk(IvAdd(DegIv(DegOf(e.t[1], e.a[1])), HalfPiIv), e.o, 3)
      [] e.op = "tan_angle" /\ Rel_C20(e) ->
